@@ -451,10 +451,25 @@ pub struct Sink {
     pub failures: Vec<Failure>,
     seen: HashSet<(Vec<Abs>, String)>,
     pub total: u64,
+    /// kinds classified by a site predicate (known finding with core "*"): counted, one example kept
+    pub site_kinds: HashSet<String>,
+    pub site_counts: std::collections::BTreeMap<String, (u64, Failure)>,
 }
 impl Sink {
+    pub fn with_sites(site_kinds: &HashSet<String>) -> Sink {
+        Sink { site_kinds: site_kinds.clone(), ..Default::default() }
+    }
     pub fn fail<Y: Sys>(&mut self, h: &Hist<Y>, kind: &str, mask: Mask, detail: impl FnOnce() -> String) {
         self.total += 1;
+        if self.site_kinds.contains(kind) {
+            match self.site_counts.get_mut(kind) {
+                Some(e) => e.0 += 1,
+                None => {
+                    self.site_counts.insert(kind.to_string(), (1, Failure { kind: kind.to_string(), hist: h.abs(), mask, detail: detail() }));
+                }
+            }
+            return;
+        }
         let key = (h.abs(), kind.to_string());
         if self.seen.contains(&key) {
             return;
@@ -464,6 +479,19 @@ impl Sink {
     }
     pub fn absorb(&mut self, o: Sink) {
         self.total += o.total;
+        for (k, (n, f)) in o.site_counts {
+            match self.site_counts.get_mut(&k) {
+                Some(e) => {
+                    e.0 += n;
+                    if (f.hist.len(), &f.hist) < (e.1.hist.len(), &e.1.hist) {
+                        e.1 = f;
+                    }
+                }
+                None => {
+                    self.site_counts.insert(k, (n, f));
+                }
+            }
+        }
         for f in o.failures {
             let key = (f.hist.clone(), f.kind.clone());
             if self.seen.insert(key) {
@@ -631,9 +659,9 @@ pub struct RunResult {
 }
 
 /// Exhaustive enumeration of all histories of `cfg`, in parallel below depth `split`.
-pub fn explore<Y: Sys>(cfg: &Cfg, v: &dyn Visitor<Y>, threads: usize) -> RunResult {
+pub fn explore<Y: Sys>(cfg: &Cfg, v: &dyn Visitor<Y>, threads: usize, site_kinds: &HashSet<String>) -> RunResult {
     let mut st = Stats::default();
-    let mut sink = Sink::default();
+    let mut sink = Sink::with_sites(site_kinds);
     let mut h = Hist::<Y>::new();
     let mut root_v = v.fresh();
     // the empty history is a node too
@@ -658,7 +686,7 @@ pub fn explore<Y: Sys>(cfg: &Cfg, v: &dyn Visitor<Y>, threads: usize) -> RunResu
                 let mut wv = v.fresh();
                 hs.push(sc.spawn(move || {
                     let mut st = Stats::default();
-                    let mut sink = Sink::default();
+                    let mut sink = Sink::with_sites(site_kinds);
                     let mut ov = false;
                     loop {
                         let k = next.fetch_add(1, std::sync::atomic::Ordering::SeqCst);
